@@ -9,7 +9,8 @@ Whitelisted on top of the integer / boolean subset of pyz:
               s.replace(".", ""), int(s)
   floats      v / <int literal>, v / 10**k (may raise: OverflowError / ZeroDivisionError of the
               model's fpow10), abs(v), a < b
-  integers    unary +
+  integers    unary + (min / max / abs / comparisons / `in` of int expressions and literals come
+              from pyz, e.g. the cap x_exponent = min(x_exponent, 308))
 Everything else raises pyz.Refused.
 
 pow10_table_v() writes Model/DecFmtPow.v (the binary64 values of 10**k, k = -323 .. 308); it is
